@@ -23,6 +23,17 @@ func bad(key, what string, replay interface{}) { run.Violation("C15/"+key, what,
 
 // guard runs f and reports a panic as a violation (a codec must not read or
 // write outside the buffer it was given).
+// reused encodes once more into a buffer that already holds another header (all ones):
+// the result must not depend on what the buffer held before. n = bytes the encoder owns.
+func reused(key string, n int, clean []byte, replay interface{}, enc func(b []byte)) {
+	d := bytes.Repeat([]byte{0xff}, len(clean))
+	copy(d[n:], clean[n:])
+	enc(d)
+	if !bytes.Equal(d[:n], clean[:n]) {
+		bad(key+"/encode-into-used-buffer", fmt.Sprintf("encoding into a buffer that held another header gives %x, into a zeroed buffer %x", d[:n], clean[:n]), replay)
+	}
+}
+
 func guard(key string, replay interface{}, f func()) {
 	defer func() {
 		if r := recover(); r != nil {
@@ -308,6 +319,9 @@ func codecs() {
 				if !bytes.Equal(b, want) {
 					bad("ipv4/encode/"+fld.name, fmt.Sprintf("Encode produced %x, RFC 791 layout is %x", b, want), rep)
 				}
+				reused("ipv4", 20, b, rep, func(d []byte) {
+					header.IPv4(d).Encode(&header.IPv4Fields{IHL: uint8(hl), TOS: p.TOS, TotalLength: p.TotalLen, ID: p.ID, Flags: p.Flags, FragmentOffset: p.FragOff * 8, TTL: p.TTL, Protocol: p.Proto, Checksum: p.Csum, SrcAddr: tcpip.Address(p.Src[:]), DstAddr: tcpip.Address(p.Dst[:])})
+				})
 				h := header.IPv4(want)
 				tos, _ := h.TOS()
 				if int(h.HeaderLength()) != hl || tos != p.TOS || h.TotalLength() != p.TotalLen || h.ID() != p.ID || h.Flags() != p.Flags || h.FragmentOffset() != p.FragOff*8 || h.TTL() != p.TTL || h.Protocol() != p.Proto || h.Checksum() != p.Csum || string(h.SourceAddress()) != string(p.Src[:]) || string(h.DestinationAddress()) != string(p.Dst[:]) || uint8(h.TransportProtocol()) != p.Proto {
@@ -400,6 +414,9 @@ func codecs() {
 				if !bytes.Equal(b, want) {
 					bad("ipv6/encode/"+names[w], fmt.Sprintf("Encode produced %x, RFC 8200 layout is %x", b, want), rep)
 				}
+				reused("ipv6", 40, b, rep, func(d []byte) {
+					header.IPv6(d).Encode(&header.IPv6Fields{TrafficClass: p.TC, FlowLabel: p.Flow, PayloadLength: p.PayloadLen, NextHeader: p.Next, HopLimit: p.Hop, SrcAddr: tcpip.Address(p.Src[:]), DstAddr: tcpip.Address(p.Dst[:])})
+				})
 				h := header.IPv6(want)
 				tc, fl := h.TOS()
 				if tc != p.TC || fl != p.Flow || h.PayloadLength() != p.PayloadLen || h.NextHeader() != p.Next || h.HopLimit() != p.Hop || string(h.SourceAddress()) != string(p.Src[:]) || string(h.DestinationAddress()) != string(p.Dst[:]) || uint8(h.TransportProtocol()) != p.Next {
@@ -448,6 +465,13 @@ func codecs() {
 					if want := f.Bytes(); !bytes.Equal(b, want) {
 						bad("ipv6frag/encode", fmt.Sprintf("Encode produced %x, RFC 8200 layout is %x", b, want), rep)
 					}
+					// into a buffer that held another fragment header (all ones). The reserved byte is
+					// not the encoder's (it is ignored on reception), so fields are compared, not bytes.
+					d := bytes.Repeat([]byte{0xff}, 8)
+					header.IPv6Fragment(d).Encode(&header.IPv6FragmentFields{NextHeader: f.Next, FragmentOffset: f.Off, M: f.More, Identification: f.ID})
+					if g, err := rfc.ParseFrag6(d); err != nil || g.Next != f.Next || g.Off != f.Off || g.More != f.More || g.ID != f.ID {
+						bad("ipv6frag/encode-into-used-buffer", fmt.Sprintf("encoded next=%d off=%d more=%v id=%d into a buffer that held another fragment header: %x reads back as next=%d off=%d more=%v id=%d", f.Next, f.Off, f.More, f.ID, d, g.Next, g.Off, g.More, g.ID), rep)
+					}
 					h := header.IPv6Fragment(f.Bytes())
 					if !h.IsValid() || h.NextHeader() != f.Next || h.FragmentOffset() != f.Off || h.More() != f.More || h.ID() != f.ID || uint8(h.TransportProtocol()) != f.Next {
 						bad("ipv6frag/getters", "getters disagree with RFC-built header", rep)
@@ -480,6 +504,9 @@ func codecs() {
 				if !bytes.Equal(b, want) {
 					bad("udp/encode", fmt.Sprintf("Encode produced %x, RFC 768 layout is %x", b, want), rep)
 				}
+				reused("udp", 8, b, rep, func(d []byte) {
+					header.UDP(d).Encode(&header.UDPFields{SrcPort: u.SrcPort, DstPort: u.DstPort, Length: u.Len, Checksum: u.Csum})
+				})
 				h := header.UDP(want)
 				if h.SourcePort() != u.SrcPort || h.DestinationPort() != u.DstPort || h.Length() != u.Len || h.Checksum() != u.Csum {
 					bad("udp/getters", "getters disagree with RFC-built header", rep)
@@ -593,6 +620,9 @@ func tcpCodec() {
 				if !bytes.Equal(b, want) {
 					bad("tcp/encode/"+names[w], fmt.Sprintf("Encode produced %x, RFC 793 layout is %x", b, want), rep)
 				}
+				reused("tcp", 20, b, rep, func(d []byte) {
+					header.TCP(d).Encode(&header.TCPFields{SrcPort: t.SrcPort, DstPort: t.DstPort, SeqNum: t.Seq, AckNum: t.Ack, DataOffset: uint8(hl), Flags: t.Flags, WindowSize: t.Window, Checksum: t.Csum, UrgentPointer: t.Urg})
+				})
 				h := header.TCP(want)
 				if h.SourcePort() != t.SrcPort || h.DestinationPort() != t.DstPort || h.SequenceNumber() != t.Seq || h.AckNumber() != t.Ack || int(h.DataOffset()) != hl || h.Flags() != want[13] || h.WindowSize() != t.Window || h.Checksum() != t.Csum || !bytes.Equal(h.Options(), t.RawOpts) || len(h.Payload()) != 0 {
 					bad("tcp/getters/"+names[w], fmt.Sprintf("getters disagree with RFC-built header %x", want), rep)
